@@ -180,6 +180,18 @@ check("C18", "exploration",
       "DESIGN.md section 3 C18")
 
 
+check("C13", "exploration",
+      "Part A: random operation histories (construct / unpack / set leaf / append / set nested / pack / repr) over 3-6 live packets of "
+      "related classes; after every operation every live packet is compared with its shadow value tree and baseline pack() output "
+      "(pack twice) and all object graphs are scanned for shared lists / nested packets by id(). Part B: two operations on distinct "
+      "packets run in two threads whose field-entry points are forced through enumerated/sampled interleavings (distinct hook orders "
+      "counted). Part C: 8 free-running threads with yield injection at line events inside bisturi and a 1us switch interval.",
+      "Thread schedules are forced at field-entry granularity and only sampled below it. F2 (regex delimiter remembered on the shared field) "
+      "is exhibited by a deterministic probe and reported as KNOWN-FINDING; such fields are left out of the random histories.",
+      "runtime monitoring: shadow-state history checker + aliasing scan + controlled thread interleavings + yield injection",
+      "DESIGN.md section 3 C13")
+
+
 def build():
     import glob
     props = []
